@@ -20,6 +20,7 @@ T.ALPHABETS['c04roles'] = {
     'atoms': ['k', '"a"'],
     'refs': 'all+aligned0',
 }
+T.ALPHABETS['c04roles5'] = dict(T.ALPHABETS['c04roles'], roles=[':ARG0-of', ':consist-of', ':consist-of-of', ':mod-of', ':r-of-of-of'], concepts=[T.ABSENT, 'x'])
 T.ALPHABETS['c04wide'] = dict(T.ALPHABETS['wide'], roles=T.ALPHABETS['wide']['roles'] + [':r-of-of'])
 
 T.ALPHABETS['c04text'] = {
@@ -51,9 +52,10 @@ def shards(tier, seed):
         out += T.shard_list(2, 2, 2, 'c04text', extra={'sub': 'text', 'bounds': 'TREE(2,2,2) with non-ASCII separators / VT / FF / FS inside symbols, roles and strings, decoded from text'})
     else:
         out += T.shard_list(3, 2, 3, 'c04wide', dupvars=True, empty_nodes=True, extra={'sub': 'wide', 'bounds': 'TREE(3,2,3) wide alphabet, duplicate definitions, empty nodes'})
-        out += T.shard_list(3, 4, 3, 'mid', dupvars=True, empty_nodes=True, pin=3, extra={'sub': 'mid', 'bounds': 'TREE(3,4,3) mid alphabet, duplicate definitions, empty nodes'})
-        out += T.shard_list(3, 4, 3, 'c04roles', pin=3, extra={'sub': 'modelroles', 'bounds': 'TREE(3,4,3) model-specific roles'})
-        out += T.shard_list(4, 5, 4, 'narrow', dupvars=True, pin=3, extra={'sub': 'narrow', 'bounds': 'TREE(4,5,4) narrow alphabet, duplicate definitions'})
+        out += T.shard_list(3, 4, 3, 'mid', dupvars=True, pin=3, extra={'sub': 'mid', 'bounds': 'TREE(3,4,3) mid alphabet, duplicate definitions'})
+        out += T.shard_list(3, 4, 3, 'c04roles5', pin=3, extra={'sub': 'modelroles', 'bounds': 'TREE(3,4,3) model-specific roles (5 of the 8), TREE(3,3,3) all 8'})
+        out += T.shard_list(3, 3, 3, 'c04roles', extra={'sub': 'modelroles', 'bounds': ''})
+        out += T.shard_list(4, 5, 4, 'narrow', pin=3, extra={'sub': 'narrow', 'bounds': 'TREE(4,5,4) narrow alphabet'})
         out += T.shard_list(3, 3, 3, 'c04text', extra={'sub': 'text', 'bounds': 'TREE(3,3,3) with non-ASCII separators / VT / FF / FS inside symbols, roles and strings, decoded from text'})
     return out
 
